@@ -205,9 +205,20 @@ structure Built where
   metric : Metric
   deriving DecidableEq, Repr
 
+/-- the grid's element counts (`n_node`, `n_face`, `n_edge`) -/
+structure Sizes where
+  nNode : Nat
+  nFace : Nat
+  nEdge : Nat
+  deriving DecidableEq, Repr
+
+def Sizes.of (z : Sizes) : Elem → Nat
+  | .nodes => z.nNode | .faces => z.nFace | .edges => z.nEdge
+
 /-- a `BallTree` / `KDTree` wrapper object -/
 structure TreeObj where
   coords : Elem            -- `_coordinates`
+  count : Nat              -- `_n_elements` (ONE field per wrapper; the `k` guard reads it)
   sys : Sys                -- `coordinate_system`
   metric : Metric          -- `distance_metric`
   recon : Bool             -- `reconstruct` (sticky attribute of the wrapper)
@@ -242,46 +253,52 @@ def TreeObj.setSlot (t : TreeObj) (e : Elem) (b : Built) : TreeObj :=
   | .edges => { t with slotE := some b }
 
 /-- `BallTree.__init__` / `KDTree.__init__` -/
-def newTree (r : Req) : TreeObj :=
-  ({ coords := r.elem, sys := r.sys, metric := r.metric, recon := r.recon,
+def newTree (z : Sizes) (r : Req) : TreeObj :=
+  ({ coords := r.elem, count := z.of r.elem, sys := r.sys, metric := r.metric, recon := r.recon,
      slotN := none, slotF := none, slotE := none } : TreeObj).setSlot r.elem ⟨r.elem, r.sys, r.metric⟩
 
 /-- the `coordinates` setter: switch element kind, build the slot when empty (or when the
-    wrapper was created with `reconstruct=True`) FROM THE WRAPPER'S OWN system / metric. -/
-def switchTo (t : TreeObj) (e : Elem) : TreeObj :=
-  let t1 := { t with coords := e }
+    wrapper was created with `reconstruct=True`) FROM THE WRAPPER'S OWN system / metric, and
+    refresh `_n_elements` to the new kind's size — ALWAYS, also when the slot was already cached. -/
+def switchTo (z : Sizes) (t : TreeObj) (e : Elem) : TreeObj :=
+  let t1 := { t with coords := e, count := z.of e }
   if (t1.slot e).isNone || t1.recon then t1.setSlot e ⟨e, t1.sys, t1.metric⟩ else t1
 
 /-- one `get_ball_tree` / `get_kd_tree` call on a cached wrapper. -/
-def getFrom (v : Variant) (cur : Option TreeObj) (r : Req) : TreeObj :=
+def getFrom (z : Sizes) (v : Variant) (cur : Option TreeObj) (r : Req) : TreeObj :=
   match cur with
-  | none => newTree r
+  | none => newTree z r
   | some t =>
-    if r.recon then newTree r
-    else if v = .repaired && (r.sys != t.sys || r.metric != t.metric) then newTree r
-    else if r.elem != t.coords then switchTo t r.elem else t
+    if r.recon then newTree z r
+    else if v = .repaired && (r.sys != t.sys || r.metric != t.metric) then newTree z r
+    else if r.elem != t.coords then switchTo z t r.elem else t
 
 /-- a request: new cache state and the wrapper handed back. -/
-def getTree (v : Variant) (c : Cache) (r : Req) : Cache × TreeObj :=
+def getTree (z : Sizes) (v : Variant) (c : Cache) (r : Req) : Cache × TreeObj :=
   match r.kind with
-  | .ball => let t := getFrom v c.ball r; ({ c with ball := some t }, t)
-  | .kd => let t := getFrom v c.kd r; ({ c with kd := some t }, t)
+  | .ball => let t := getFrom z v c.ball r; ({ c with ball := some t }, t)
+  | .kd => let t := getFrom z v c.kd r; ({ c with kd := some t }, t)
 
 /-- run a history of requests; returns the final cache and every wrapper handed back. -/
-def runReqs (v : Variant) : Cache → List Req → Cache × List TreeObj
+def runReqs (z : Sizes) (v : Variant) : Cache → List Req → Cache × List TreeObj
   | c, [] => (c, [])
   | c, r :: rs =>
-    let (c1, t) := getTree v c r
-    let (c2, ts) := runReqs v c1 rs
+    let (c1, t) := getTree z v c r
+    let (c2, ts) := runReqs z v c1 rs
     (c2, t :: ts)
 
 /-- the sklearn tree a query on the wrapper goes to (`_current_tree`). -/
 def TreeObj.current (t : TreeObj) : Option Built := t.slot t.coords
 
 /-- **the wrapper reflects the request**: element kind, coordinate system and metric of the
-    wrapper AND of the sklearn tree its queries go to are the requested ones. -/
-def reflects (r : Req) (t : TreeObj) : Bool :=
+    wrapper AND of the sklearn tree its queries go to are the requested ones, and the element
+    count its `k` guard uses is the size of the REQUESTED kind. -/
+def reflects (z : Sizes) (r : Req) (t : TreeObj) : Bool :=
   t.coords == r.elem && t.sys == r.sys && t.metric == r.metric
   && t.current == some ⟨r.elem, r.sys, r.metric⟩
+  && t.count == z.of r.elem
+
+/-- the `k` guard of `query` on a wrapper: `k < 1 or k > self._n_elements` raises. -/
+def TreeObj.accepts (t : TreeObj) (k : Int) : Bool := decide (1 ≤ k) && decide (k ≤ (t.count : Int))
 
 end UxVerif.Knn
